@@ -20,13 +20,18 @@ func NewOpenAPI(c *catalog.Catalog) (oa *OpenAPI, err Error) {
 		return nil, err
 	}
 
+	components, err := newComponents(c)
+	if err != nil {
+		return nil, err
+	}
+
 	oa = &OpenAPI{
 		catalog:    c,
 		OpenAPI:    "3.0.3",
 		Info:       newInfo(c.Info),
 		Servers:    newServers(c.Servers),
 		Paths:      paths,
-		Components: newComponents(c),
+		Components: components,
 	}
 
 	return oa, err
